@@ -1657,3 +1657,37 @@ def attribute_view_sites(ck, rels, rule='PROV-attribute-view'):
                         qual, u(c)[:70], ' -- triaged: ' + reason if reason else ' (also with an empty / zero / None value, and not the others): not a triaged use -- a loop with '
                         '`.get(..)` that this replaces selected by the value'), key='{}|{}|{}|{}'.format(rule, rel, qual, attr))
     ck.ob(rule, rels[0] if rels else '-', True, 'selections by attribute presence (nx.get_node_attributes): {} site(s), all triaged'.format(n), key=rule + '|scan|' + ','.join(rels))
+
+
+# the two lazy adoptions of the pinned tree, read and triaged (both are documented behaviour of a container that takes a property over from its first member)
+LAZY_TRIAGE = {
+    ('vermouth/molecule.py', 'Molecule.merge_molecule', 'self.nrexcl'): 'an empty molecule without nrexcl adopts the nrexcl of the first molecule merged into it (C01 / C12 rules read this)',
+    ('vermouth/system.py', 'System.add_molecule', 'self.force_field'): 'a system without force field adopts the one of the first molecule added; a later molecule with another force field is refused',
+}
+
+
+def no_lazy_instance_memo(ck, rels, rule='STATE-no-memory'):
+    """`if self.x is None: self.x = <computed from this call's argument>` in a method other than __init__ keeps what the *first* call computed: every later call on
+    the same object (another molecule, another system) silently works with the first one's value (seeds C18_y, C18_z: the residue graph and the system of the Go
+    bias processor).  Reported unless the guarded value does not depend on the call's arguments."""
+    n = 0
+    for rel in rels:
+        module = ck.index.mod(rel)
+        for qual, fn in module.functions.items():
+            if '.' not in qual or qual.endswith('__init__') or not param_names(fn) or param_names(fn)[0] != 'self':
+                continue
+            params = set(param_names(fn)[1:])
+            for st, cond, env in stmts_with_env(fn, lambda s_: isinstance(s_, ast.Assign) and len(s_.targets) == 1 and isinstance(s_.targets[0], ast.Attribute) and
+                                                isinstance(s_.targets[0].value, ast.Name) and s_.targets[0].value.id == 'self'):
+                target = u(st.targets[0])
+                guarded = any((k[0] == 'Is' and target in k[1:] and 'None' in k[1:]) or (k[0] == 'truth' and k[1] == target) for k in flow.atoms_of(cond))
+                if not guarded:
+                    continue
+                uses_args = any(isinstance(x, ast.Name) and x.id in params for x in ast.walk(flow.subst(st.value, env)))
+                n += 1
+                reason = LAZY_TRIAGE.get((rel, qual, target))
+                ck.ob(rule, module.loc(st), not uses_args or reason is not None, '{}: `{}` is set only while it is still unset{}'.format(
+                    qual, u(st)[:70], ' -- triaged: ' + reason if reason else ' -- from this call\'s argument(s): later calls with another argument keep the first value' if uses_args else ' (from nothing call-specific)'),
+                    key='{}|lazy|{}|{}|{}'.format(rule, rel, qual, target))
+    ck.ob(rule, rels[0] if rels else '-', True, 'instance attributes set lazily (`if self.x is None: self.x = ..`) outside __init__: {} site(s)'.format(n),
+          key=rule + '|lazy-scan|' + ','.join(rels))
